@@ -41,7 +41,7 @@ def tier_runs(tier):
 
 
 def tier_budget_s(tier):
-    return 600 if tier == "quick" else 5400
+    return 1000 if tier == "quick" else 7200
 
 
 # ----------------------------------------------------------------------------- query generation
@@ -145,7 +145,9 @@ def gen_query(rng, world, heavy_w):
                                   {"p_limits": [0, 0.2]}, {"adsorbate_model": ar_like}, {"adsorbate_model": ar_like, "psd_model": "RY"},
                                   {"material_model": solid}, {"material_model": "AlPhOxideIon", "pore_geometry": "sphere"}])
         elif what == "psd_dft":
-            q["kw"] = rng.choice([{}, {"bspline_order": 3}, {"branch": "des"}])
+            q["kw"] = rng.choice([{}, {"bspline_order": 3}, {"branch": "des"},
+                                  {"kernel_units": {"loading_basis": "volume_gas", "loading_unit": "cm3"}},
+                                  {"kernel_units": {"loading_unit": "mmoles"}}, {"kernel_units": {"pressure_mode": "relative%"}}])
     elif g == "enth":
         what = rng.choice(["isosteric_enthalpy", "enthalpy_sorption_whittaker", "enthalpy_sorption_whittaker", "initial_enthalpy_point",
                            "initial_enthalpy_comp"])
@@ -259,6 +261,9 @@ def gen_related(rng, world, prev):
         if rng.random() < 0.3:
             return {"g": "henry", "q": "initial_henry_slope", "iso": prev["iso"], "kw": {}}
         q["kw"] = rng.choice([{}, {}, {"optimization_params": {"max_nfev": 50}}])
+        return q
+    if g == "n2char" and prev["q"] == "psd_dft":
+        q["kw"] = rng.choice([{}, {}, {"bspline_order": 3}, dict(prev.get("kw") or {})])   # mostly: the default call next
         return q
     if g == "n2char":
         r = world["roles"]
@@ -716,7 +721,7 @@ def execute(ctx, world, rng=None, steps=None, cfg=None):
 
 def make_cfg(rng, tier):
     return {"n_steps": rng.randint(2, 14), "mutators": rng.random() < 0.4,
-            "heavy_w": 0.08 if tier == "quick" else 0.3, "related_p": rng.choice([0.0, 0.3, 0.6])}
+            "heavy_w": 0.15 if tier == "quick" else 0.35, "related_p": rng.choice([0.0, 0.3, 0.6])}
 
 
 def run(ctx, index):
